@@ -51,7 +51,7 @@ class Workspace(object):
         path = os.path.join(self.dir, *parts) + ".py"
         with open(path, "w") as f:
             f.write(source)
-        linecache.clearcache()
+        # the line cache is left alone on purpose (see worker.load_world)
         importlib.invalidate_caches()
         return importlib.reload(sys.modules[name])
 
